@@ -628,10 +628,13 @@ func cmdCheck(args []string) int {
 	repoF := fs.String("repo", "", "build from this tree instead of /repo (scratch worktrees for sensitivity experiments; implies --no-evidence and a separate work dir)")
 	fs.Parse(args[1:])
 	workTag := ""
+	if t := os.Getenv("VERIF_WORKTAG"); t != "" {
+		workTag = "-" + t // separate work directory for runs that go on in the background
+	}
 	if *repoF != "" {
 		repoDir = *repoF
 		*noEvidence = true
-		workTag = "-alt" + sigHash(*repoF)
+		workTag += "-alt" + sigHash(*repoF)
 	}
 	if t := os.Getenv("VERIF_TIER"); t != "" && !flagSet(fs, "tier") {
 		*tier = t
